@@ -155,7 +155,13 @@ def r062_gamma_bound(ctx):
     rb = A.run(cls + ".bound", cls_ctx=cls)
     spec = A.entry(rb, "pd.Series(self.eps, index=self.index)", {"pd": glob("pandas")})
     A.formula("R06.2", rb.func, None, rb.ret, spec, "bound() = eps on every constraint", construct="bound formula")
-    # constructor case table (D-REGION)
+    utility_parity_ctor_table(ctx, "R06.2")
+
+
+def utility_parity_ctor_table(ctx, rule):
+    """eps / ratio case table of UtilityParity.__init__ (exhaustive over order cells); shared by C06 R06.2 and C20 R20.11."""
+    A = Analysis(ctx)
+    cls = M_UP + ":UtilityParity"
     ri = A.run(cls + ".__init__", cls_ctx=cls)
     p = ri.params
     slack = 0.02
@@ -175,7 +181,7 @@ def r062_gamma_bound(ctx):
             except Raised:
                 got = "raise"
             except (Unmodelled, KeyError) as ex:
-                ctx.ob("R06.2", ri.func, None, None, f"constructor guard not modelled: {ex}", construct="ctor table")
+                ctx.ob(rule, ri.func, None, None, f"constructor guard not modelled: {ex}", construct="ctor table")
                 return
             if d is None and rb_ is None:
                 want = (0.01, 1.0)
@@ -188,9 +194,10 @@ def r062_gamma_bound(ctx):
             if got != want:
                 bad.append(f"(difference_bound={d}, ratio_bound={rb_}) -> {got}, documented {want}")
     ctx.exhaustive_spaces.append(f"UtilityParity.__init__: {n_cells} order cells of (difference_bound, ratio_bound)")
-    ctx.ob("R06.2", ri.func, None, not bad,
+    ctx.ob(rule, ri.func, None, not bad,
            f"eps/ratio case table equals the documented one on all {n_cells} cells" if not bad else "; ".join(bad[:4]),
            construct="ctor eps/ratio table")
+
 
 
 # ----------------------------------------------------------------------------- R06.3
